@@ -2,6 +2,7 @@
 Bound: path names over {a,b,c}, depth <= 3, <= 5 files in the prior workspace and in the target; targets given as explicit
 file entries with explicit directory entries; all file<->directory replacements included; delete on/off; link types copy / hardlink / symlink; dangling symbolic links in the prior workspace; n pairs (seeded)."""
 import logging; logging.disable(logging.CRITICAL)
+import _memfs  # noqa: E402
 import hashlib, json, os, random, sys, tempfile
 SRC = os.environ.get("PYVC_REPO_SRC", "/repo/src")
 sys.path.insert(0, SRC)
@@ -67,6 +68,7 @@ def main(n, seed):
         return None
 
     for case in range(n):
+        _memfs.reset()
         if case % 12 == 11:
             pr = unavailable_dir(case // 12)
             if pr:
